@@ -396,7 +396,7 @@ def translate(exe, query, outdir, ld=False, io_plan=None, abort_plan=None, extra
     try:
         a = build_ast(query, stream_cache)
     except Exception as e:  # a query the func_adl front end itself refuses
-        return {"outcome": "raise", "type": "frontend:" + type(e).__name__, "msg": str(e)[:300], "oserror": False,
+        return {"outcome": "raise", "type": "frontend:" + type(e).__name__, "msg": _HEX.sub("0xADDR", str(e))[:300], "oserror": False,
                 "lines": 0, "io_calls": []}
     seams = []
     if io_plan is not None:
